@@ -304,4 +304,78 @@ def listPrimary (db : TDB) (pfx : Option Bytes) (pk : Option Bytes) (count : Nat
     if pfx.isSome ∧ commonPrefixLen p k ≠ p.length then .notfound
     else go (dataPrefix ++ k)
 
+/-! ### operations as data, runs -/
+
+inductive Op where
+  | add (r : Row)
+  | replace (r : Row)
+  | update (r : Row)        -- `Update(r.pk, r)`
+  | del (pk : Bytes)
+  deriving DecidableEq, Repr
+
+def Op.pk : Op → Bytes
+  | .add r => r.pk
+  | .replace r => r.pk
+  | .update r => r.pk
+  | .del pk => pk
+
+def exec (t : Table) : Op → Table × Res
+  | .add r => add t r
+  | .replace r => replace t r
+  | .update r => update t r.pk r
+  | .del pk => del t pk
+
+/-- buffered operations, results in order. -/
+def run (t : Table) : List Op → Table × List Res
+  | [] => (t, [])
+  | op :: rest =>
+    let (t1, r) := exec t op
+    let (t2, rs) := run t1 rest
+    (t2, r :: rs)
+
+/-! ### specification side (statements of Props/C10.lean are written with these) -/
+
+/-- the table as a map from primary key to row. -/
+abbrev Spec := Bytes → Option Row
+
+def Spec.set (m : Spec) (pk : Bytes) (v : Option Row) : Spec := fun p => if p = pk then v else m p
+
+/-- map semantics of one operation: Add fails exactly when the key is present, Update / Del fail
+exactly when it is absent, Replace always succeeds. -/
+def specStep (m : Spec) : Op → Spec × Res
+  | .add r => match m r.pk with
+    | some _ => (m, .dup)
+    | none => (m.set r.pk (some r), .ok)
+  | .replace r => (m.set r.pk (some r), .ok)
+  | .update r => match m r.pk with
+    | some _ => (m.set r.pk (some r), .ok)
+    | none => (m, .notfound)
+  | .del pk => match m pk with
+    | some _ => (m.set pk none, .ok)
+    | none => (m, .notfound)
+
+def specRun (m : Spec) : List Op → Spec × List Res
+  | [] => (m, [])
+  | op :: rest =>
+    let (m1, r) := specStep m op
+    let (m2, rs) := specRun m1 rest
+    (m2, r :: rs)
+
+def NoSep (b : Bytes) : Prop := sep ∉ b
+
+instance (b : Bytes) : Decidable (NoSep b) := by unfold NoSep; infer_instance
+
+/-- the records of primary key `p` seen through a lookup function `g` are exactly the encoding
+of `m p`: the data record, and for every index one entry — under the value of the row's field and
+under no other value. -/
+def RepAtG (g : Bytes → Option Val) (m : Spec) (p : Bytes) : Prop :=
+  g (dataKey p) = (m p).map (fun r => Val.row p r) ∧
+  ∀ ix ∈ indexes, ∀ val, g (indexKey ix.1 val p) =
+    (match m p with
+     | some r => if ix.2 r = val then some (Val.pk p) else none
+     | none => none)
+
+/-- the db encodes the map `m` (for primary keys that do not contain the '-' separator). -/
+def Rep (db : TDB) (m : Spec) : Prop := ∀ p, NoSep p → RepAtG (get db) m p
+
 end C10
